@@ -50,7 +50,7 @@ class Contract:
                  modifies=(), trusted=False, inline=False, allocates=False, ghost=None,
                  hints=(), props=(), ensures_exc=None, note="", pure=False, assume_pre=(),
                  entry_facts=(), checks_only=False, ghost_modifies=(), ghost_ensures=(), ghost_out=None,
-                 ghost_ensures_exc=None):
+                 ghost_ensures_exc=None, hints_for=None):
         self.qualname = qualname
         self.params = OrderedDict((k, parse_kind(v)) for k, v in params.items())
         self.returns = parse_kind(returns) if returns is not None else None
@@ -63,6 +63,9 @@ class Contract:
         self.allocates = allocates
         self.ghost = OrderedDict((k, parse_kind(v)) for k, v in (ghost or {}).items())
         self.hints = list(hints)
+        # lemma instances needed by ONE postcondition only (label -> hints): added to the path just for that obligation,
+        # so heavy lemma terms do not burden the other obligations of the function nor its call sites
+        self.hints_for = {k: list(v) for k, v in (hints_for or {}).items()}
         self.props = list(props)
         self.ensures_exc = {k: _clauses(v, f"post_{k}_") for k, v in (ensures_exc or {}).items()}
         self.note = note
@@ -82,7 +85,7 @@ class Contract:
 
 class LoopSpec:
     def __init__(self, qualname, ordinal, invariants=(), decreases=None, modifies=(),
-                 ghost=None, hints=(), havoc_locals=None, step=(), step_ret=(), local_kinds=None):
+                 ghost=None, hints=(), havoc_locals=None, step=(), step_ret=(), local_kinds=None, post_hints=()):
         self.qualname = qualname
         self.ordinal = ordinal
         self.invariants = _clauses(invariants, f"inv{ordinal}_")
@@ -90,6 +93,8 @@ class LoopSpec:
         self.modifies = list(modifies)
         self.ghost = OrderedDict((k, parse_kind(v)) for k, v in (ghost or {}).items())
         self.hints = list(hints)
+        # lemma instances over the state at the END of an iteration (before the invariants are re-checked)
+        self.post_hints = list(post_hints)
         self.havoc_locals = havoc_locals
         self.local_kinds = OrderedDict((k, parse_kind(v)) for k, v in (local_kinds or {}).items())
         # step clauses: checked at the end of every iteration (back edge, break, return inside the loop);
